@@ -41,6 +41,7 @@ type c05Op struct {
 	Vals   []string // scan result values
 	Ended  bool     // scan reached the end
 	Failed string   // set/del error
+	Lo, Hi uint64   // mark: committed frontier before and after the call
 }
 
 type c05Tx struct {
@@ -194,6 +195,26 @@ func c05Body(r *simcore.Run) {
 				if op.Ended && len(op.Keys) != len(keys) {
 					return fmt.Sprintf("op %d scan(seek %q desc=%v) ended after %q, serial execution gives %q", i, op.Seek, op.Desc, op.Keys, keys)
 				}
+			case "mark":
+				content := func(st state) string {
+					var kv []string
+					for k, v := range st {
+						if v != nil && strings.HasPrefix(k, "k") {
+							kv = append(kv, k+"="+*v)
+						}
+					}
+					sort.Strings(kv)
+					return strings.Join(kv, ",")
+				}
+				same := false
+				for j := op.Lo; j <= op.Hi && !same; j++ {
+					if int(j) < len(states) && states[j] != nil {
+						same = content(states[j]) == content(s)
+					}
+				}
+				if !same {
+					return fmt.Sprintf("op %d marked the key space as scanned when the committed frontier was between %d and %d; its content changed before the commit position, yet the transaction committed", i, op.Lo, op.Hi)
+				}
 			case "set":
 				if op.Failed == "" {
 					v := op.Val
@@ -305,6 +326,21 @@ func (e *storeEnv) c05Program(task string, idx int) *c05Tx {
 		w := r.Intn(10)
 		if rec.ReadOnly && w >= 6 {
 			w = r.Intn(6)
+		}
+		if i == 0 && !rec.ReadOnly && r.Pct(15) {
+			// the whole key space is marked as scanned (a fingerprint of its content joins
+			// the read set) before anything else is read or written
+			op := c05Op{Kind: "mark"}
+			op.Lo = e.st.LastCommittedTxID()
+			err := tx.MarkPrefixScanned(ctx, store.KeyReaderSpec{Prefix: []byte("k"), Filters: []store.FilterFn{store.IgnoreDeleted}})
+			op.Hi = e.st.LastCommittedTxID()
+			if err != nil {
+				tx.Cancel()
+				c05IdxViol(r, "tx-reader", "MarkPrefixScanned inside a transaction failed: %v", err)
+			}
+			rec.Ops = append(rec.Ops, op)
+			r.Probe("c05-prefix-marked")
+			continue
 		}
 		switch {
 		case w < 4:
